@@ -86,6 +86,33 @@ Theorem exactly_one_changes_from_own_value :
 Proof. exact @hp_mutation_result. Qed.
 Print Assumptions exactly_one_changes_from_own_value.
 
+(* Repaired semantics (fixes/C06-mutate-from-own-attribute): NO hypothesis on the cached values is needed — stale,
+   aliased or foreign caches cannot influence the result. *)
+Theorem mutation_base_is_the_attribute :
+  forall (T : Type) (O : numops T) (a : agent T) (k : nat) (u : T) (h : hpent T) (v : T),
+  nth_error (a_hps a) k = Some h -> getv (a_vals a) (hp_name h) = Some v ->
+  getv (a_vals (rl_hp_mutation O a k u)) (hp_name h) = Some (mutate_value O (hp_par h) u v) /\
+  (forall m, m <> hp_name h -> getv (a_vals (rl_hp_mutation O a k u)) m = getv (a_vals a) m).
+Proof. exact @hp_mutation_from_attribute. Qed.
+Print Assumptions mutation_base_is_the_attribute.
+
+(* The earlier code (cached value first) is the same function wherever the cache agrees with the attributes, hence on
+   every reachable state of populations whose members own their configuration (invariant_over_histories) ... *)
+Theorem cache_first_agrees_under_invariant :
+  forall (T : Type) (O : numops T) (a : agent T) (k : nat) (u : T),
+  CacheOk a -> rl_hp_mutation_cache_first O a k u = rl_hp_mutation O a k u.
+Proof. exact @cache_first_agrees. Qed.
+Print Assumptions cache_first_agrees_under_invariant.
+
+(* ... and violates the property when one parameter object is configured under two names *)
+Theorem aliased_parameter_refuted :
+  let a1 := aliased_mutation QOps aliased_agent 0 1 1 (1 # 4) in
+  let a2 := aliased_mutation QOps a1 0 1 0 (3 # 4) in
+  exists own got, getv (a_vals a1) 0%nat = Some own /\ getv (a_vals a2) 0%nat = Some got /\
+                  ~ got == mutate_value QOps lr_par (3 # 4) own.
+Proof. exact aliased_parameter_refuted_lemma. Qed.
+Print Assumptions aliased_parameter_refuted.
+
 (* A mutated learning rate is the learning rate of every param group of every optimizer registered
    with that name (twin critics, per-agent optimizer lists); optimizers registered under another
    name are left exactly as they were. *)
